@@ -774,6 +774,8 @@ func checkDecodeCashAddress(input string) (result []byte, prefix string, t Addre
 		t = AddrTypePayToPubKeyHash
 	case 0x08:
 		t = AddrTypePayToScriptHash
+	default:
+		return data, prefix, AddrTypePayToPubKeyHash, ErrUnknownAddressType
 	}
 	return data[1:21], prefix, t, nil
 }
